@@ -22,7 +22,7 @@ from acnportal.acnsim.models.evse import EVSE
 from acnportal.contrib.acnsim.network import stochastic_network as SN
 from acnportal.algorithms import UncontrolledCharging
 
-from mc.core import Acc
+from mc.core import Acc, guard
 from mc.engines import explore_choices
 from mc import simspace as S
 
@@ -268,6 +268,7 @@ def run_once(item, chooser, collect=None):
     except S.Watchdog as exc:
         rep("termination:watchdog", str(exc), None, None)
     except Exception as exc:
+        guard(exc)
         if not viol:
             rep("exception:%s" % type(exc).__name__, "run() raised %r" % (exc,), repr(exc), None)
     finally:
